@@ -165,6 +165,7 @@ type vcluster struct {
 	verbose bool
 	sentMu  sync.Mutex
 	sent    map[string]int
+	wb      []trace.M // white-box restart / publish reports
 }
 
 func newCluster(vnode, root string, n int, engine string, extra []string) (*vcluster, error) {
@@ -193,7 +194,26 @@ func (cl *vcluster) noteSent(i int, line string) {
 	cl.sentMu.Unlock()
 }
 
-// sentEvents turns the early-send reports into trace events (one per node and kind).
+// noteWhiteBox keeps the restart reports (REPLAYED wal_last=.. raft_last=..: one per start on an
+// existing directory) and the publish-before-save reports (PUBLISHED unsaved pub=.. saved=..).
+func (cl *vcluster) noteWhiteBox(i int, line string) {
+	kv := map[string]int64{}
+	for _, f := range strings.Fields(line) {
+		if j := strings.IndexByte(f, '='); j > 0 {
+			n, _ := strconv.ParseInt(f[j+1:], 10, 64)
+			kv[f[:j]] = n
+		}
+	}
+	cl.sentMu.Lock()
+	defer cl.sentMu.Unlock()
+	if strings.HasPrefix(line, "REPLAYED ") {
+		cl.wb = append(cl.wb, trace.M{"ev": "replayed", "n": i, "wal_last": kv["wal_last"], "raft_last": kv["raft_last"]})
+	} else if len(cl.wb) < 64 {
+		cl.wb = append(cl.wb, trace.M{"ev": "published", "n": i, "pub": kv["pub"], "saved": kv["saved"]})
+	}
+}
+
+// sentEvents turns the white-box reports into trace events.
 func (cl *vcluster) sentEvents() []trace.M {
 	cl.sentMu.Lock()
 	defer cl.sentMu.Unlock()
@@ -202,7 +222,7 @@ func (cl *vcluster) sentEvents() []trace.M {
 		keys = append(keys, k)
 	}
 	sort.Strings(keys)
-	var out []trace.M
+	out := append([]trace.M(nil), cl.wb...)
 	for _, k := range keys {
 		f := strings.Fields(k)
 		n, _ := strconv.Atoi(f[0])
@@ -262,6 +282,10 @@ func (cl *vcluster) start(i int, env ...string) (*vchild, error) {
 			ch := k.lines
 			if strings.HasPrefix(sc.Text(), "STATUS ") {
 				ch = k.stat
+			}
+			if strings.HasPrefix(sc.Text(), "REPLAYED ") || strings.HasPrefix(sc.Text(), "PUBLISHED ") {
+				cl.noteWhiteBox(i, sc.Text())
+				continue
 			}
 			if strings.HasPrefix(sc.Text(), "SENT ") {
 				// white-box report of processReady: messages of a Ready left before its persist
